@@ -214,6 +214,50 @@ def f3_random(seed, n, depth=3, effects=False, fam="F3"):
     return out
 
 
+# ------------------------------------------------------------------------------------------- F12 random statement programs
+def f12_random(seed, n, effects):
+    """random straight-line / branching / looping statement sequences over three mutable locals, with early returns;
+    loops have constant trip counts <= 3 so that every path stays inside the loop bound"""
+    rng = random.Random(seed * 7919 + (1 if effects else 0))
+    out = []
+    for i in range(n):
+        t = rng.choice(["i32", "u8", "i64", "u16", "i8", "u32"])
+        g = G(rng, t, [("a", t), ("b", t), ("x", t), ("y", t)], allow_div=False, effects=effects)
+        counter = [0]
+
+        def stmts(depth, in_loop):
+            k = rng.randint(1, 3)
+            res = []
+            for _ in range(k):
+                r = rng.random()
+                v = Var(rng.choice(["x", "y"]), t)
+                if r < 0.3:
+                    res.append(Assign(v, g.expr(t, 1)))
+                elif r < 0.5:
+                    res.append(Assign(v, g.expr(t, 1), rng.choice(["+", "-", "*"])))
+                elif r < 0.7 and depth > 0:
+                    els = Block(stmts(depth - 1, in_loop), None, "unit") if rng.random() < 0.6 else None
+                    res.append(ExprStmt(If(g.expr("bool", 1), Block(stmts(depth - 1, in_loop), None, "unit"), els, "unit")))
+                elif r < 0.82 and depth > 0 and not in_loop:
+                    counter[0] += 1
+                    iv = f"i{counter[0]}"
+                    body = stmts(depth - 1, True) + [Assign(Var(iv, t), Lit(t, 1), "+")]
+                    res.append(Let(iv, t, Lit(t, 0)))
+                    res.append(ExprStmt(While(Bin("<", Var(iv, t), Lit(t, rng.randint(1, 3)), "bool"), Block(body, None, "unit"))))
+                elif r < 0.9 and depth > 0:
+                    res.append(ExprStmt(If(g.expr("bool", 1), Block([ExprStmt(Ret(g.expr(t, 1)))], None, "unit"), None, "unit")))
+                elif effects:
+                    res.append(ExprStmt(Host(f"emit_{t}", [g.expr(t, 1)], "unit")))
+                else:
+                    res.append(Assign(v, g.expr(t, 2)))
+            return res
+        body = [Let("x", t, Var("a", t)), Let("y", t, Var("b", t))] + stmts(2, False)
+        e = Bin(rng.choice(["+", "-", "*"]), Var("x", t), Var("y", t), t)
+        fam = "F12E" if effects else "F12"
+        out.append(P(f"{fam.lower()}_{seed}_{i}", fam, Program([fn_main([("a", t), ("b", t)], t, body, e)]), {"value"} | ({"trace"} if effects else set())))
+    return out
+
+
 # ------------------------------------------------------------------------------------------- F4 control flow
 def f4_cells():
     out = []
@@ -452,6 +496,91 @@ def f6_cells():
         Match(Var("e2", ety), [("Both", ["x", "y"], Bin("==", Var("x", T), Var("y", T), "bool"), zero),
                                ("Both", ["x", "y"], None, peek(Var("y", T))),
                                ("One", ["x"], None, peek(Var("x", T)))], "i32"))], enums={"Two": [("Both", [T, T]), ("One", [T])]}), {"ledger", "value", "trace"}))
+    return out
+
+
+def f6_random(seed, n):
+    """random statement programs over drop-tracked values: creation, copies, overwrites, host calls that take ownership,
+    comparisons, branches, bounded loops (also with tracked temporaries in the condition), early returns"""
+    rng = random.Random(seed * 104729 + 17)
+    out = []
+    T = "Tracked"
+    i32 = "i32"
+    for i in range(n):
+        a, b = Var("a", i32), Var("b", i32)
+        tv_ = ["t"]
+        counter = [0]
+        mk = lambda e: Host("mk", [e], T)
+        peek = lambda e: Host("peek", [e], i32)
+
+        def ival(d=1):
+            r = rng.random()
+            if r < 0.3:
+                return rng.choice([a, b, Var("x", i32)])
+            if r < 0.45:
+                return Lit(i32, rng.choice([0, 1, 2, 5]))
+            if r < 0.7:
+                return peek(tval())
+            if d > 0:
+                return Bin(rng.choice(["+", "-"]), ival(d - 1), ival(d - 1), i32)
+            return a
+
+        def tval():
+            r = rng.random()
+            if r < 0.6:
+                return Var(rng.choice(tv_), T)
+            return mk(ival(0))
+
+        def cond():
+            r = rng.random()
+            if r < 0.4:
+                return Bin(rng.choice(["<", ">", "==", "!="]), ival(0), ival(0), "bool")
+            if r < 0.7:
+                return Bin(rng.choice(["==", "!="]), tval(), tval(), "bool")
+            return Bin(rng.choice(["&&", "||"]), Bin("<", ival(0), ival(0), "bool"), Bin("==", tval(), tval(), "bool"), "bool")
+
+        def stmts(depth, in_loop):
+            res = []
+            for _ in range(rng.randint(1, 3)):
+                r = rng.random()
+                if r < 0.15:
+                    counter[0] += 1
+                    nm = f"u{counter[0]}"
+                    res.append(Let(nm, T, tval()))
+                    tv_.append(nm)
+                elif r < 0.3:
+                    res.append(Assign(Var(rng.choice(tv_), T), tval()))
+                elif r < 0.42:
+                    res.append(ExprStmt(Host("eat", [tval()], "unit")))
+                elif r < 0.55:
+                    res.append(Assign(Var("x", i32), ival(1), rng.choice([None, "+"])))
+                elif r < 0.72 and depth > 0:
+                    saved = list(tv_)
+                    tb = Block(stmts(depth - 1, in_loop), None, "unit")
+                    del tv_[len(saved):]
+                    eb = None
+                    if rng.random() < 0.5:
+                        eb = Block(stmts(depth - 1, in_loop), None, "unit")
+                        del tv_[len(saved):]
+                    res.append(ExprStmt(If(cond(), tb, eb, "unit")))
+                elif r < 0.84 and depth > 0 and not in_loop:
+                    counter[0] += 1
+                    iv = f"i{counter[0]}"
+                    saved = list(tv_)
+                    body = stmts(depth - 1, True) + [Assign(Var(iv, i32), Lit(i32, 1), "+")]
+                    del tv_[len(saved):]
+                    c = Bin("<", Var(iv, i32), Lit(i32, rng.randint(1, 2)), "bool")
+                    if rng.random() < 0.4:
+                        c = Bin("&&", c, Bin("!=", mk(Var(iv, i32)), tval(), "bool"), "bool")
+                    res.append(Let(iv, i32, Lit(i32, 0)))
+                    res.append(ExprStmt(While(c, Block(body, None, "unit"))))
+                elif r < 0.93 and depth > 0:
+                    res.append(ExprStmt(If(cond(), Block([ExprStmt(Ret(ival(1)))], None, "unit"), None, "unit")))
+                else:
+                    res.append(Assign(Var("x", i32), peek(tval()), "+"))
+            return res
+        body = [Let("x", i32, a), Let("t", T, mk(b))] + stmts(2, False)
+        out.append(P(f"f6r_{seed}_{i}", "F6R", Program([fn_main([("a", i32), ("b", i32)], i32, body, Bin("+", Var("x", i32), peek(Var("t", T)), i32))]), {"ledger", "value", "trace"}))
     return out
 
 
@@ -698,9 +827,61 @@ def f11_cells():
     return out
 
 
+# ------------------------------------------------------------------------------------------- F13 strings and f-strings
+def f13_cells():
+    out = []
+    S = "String"
+    i32 = "i32"
+    a, b = Var("a", i32), Var("b", i32)
+    zero, one = Lit(i32, 0), Lit(i32, 1)
+    s_, t_ = Var("s", S), Var("t", S)
+    lit = StrLit
+    em = lambda e: Host("emit_str", [e], "unit")
+    pu = lambda e: Host("pure_i32", [e], i32)
+    cat = lambda x, y: Bin("+", x, y, S)
+    cases = {
+        "unused": ([Let("s", S, lit("abc"))], a),
+        "emit_in_branch": ([Let("s", S, cat(lit("ab"), lit("cd"))), ExprStmt(If(Bin(">", a, b, "bool"), Block([ExprStmt(em(s_))], None, "unit"), None, "unit"))], b),
+        "copy_is_value": ([Let("s", S, lit("x")), Let("t", S, s_), Assign(t_, cat(t_, lit("y"))), ExprStmt(em(s_)), ExprStmt(em(t_))], a),
+        "eq_shortcircuit": ([Let("s", S, lit("x"))], If(Bin("&&", Bin(">", a, zero, "bool"), Bin("==", cat(s_, lit("y")), lit("xy"), "bool"), "bool"), Block([], one, i32), Block([], zero, i32), i32)),
+        "early_return": ([Let("s", S, lit("p")), ExprStmt(If(Bin(">", a, b, "bool"), Block([ExprStmt(Ret(a))], None, "unit"), None, "unit")), Let("t", S, cat(s_, lit("q"))), ExprStmt(em(t_))], b),
+        "overwrite": ([Let("s", S, lit("one")), ExprStmt(If(Bin("<", a, b, "bool"), Block([Assign(s_, lit("two"))], None, "unit"), None, "unit")), ExprStmt(em(s_))], a),
+        "fstring_numbers": ([ExprStmt(em(FStr(["a=", a, " b=", b, "!"])))], a),
+        "fstring_effect_order": ([ExprStmt(em(FStr([pu(a), "-", pu(pu(b)), "-", pu(Bin("+", a, b, i32))])))], a),
+        "fstring_nested": ([Let("s", S, FStr(["<", a, ">"])), ExprStmt(em(FStr([s_, "|", s_, "|", FStr(["(", b, ")"])])))], b),
+        "fstring_in_branch": ([Let("s", S, lit("k")), ExprStmt(If(Bin("==", a, b, "bool"), Block([ExprStmt(em(FStr([s_, "=", a])))], None, "unit"), Block([ExprStmt(em(FStr(["no ", b])))], None, "unit"), "unit"))], a),
+        "fstring_unused": ([Let("s", S, FStr([a, ":", b]))], a),
+        "while_cond_string": ([Let("i", i32, zero), ExprStmt(While(Bin("&&", Bin("<", Var("i", i32), Lit(i32, 2), "bool"), Bin("!=", FStr([Var("i", i32)]), lit("7"), "bool"), "bool"),
+                                Block([ExprStmt(em(FStr(["i", Var("i", i32)]))), Assign(Var("i", i32), one, "+")], None, "unit")))], Var("i", i32)),
+        "fstring_bool_and_types": ([ExprStmt(em(FStr([Bin("<", a, b, "bool"), " ", Lit("u8", 200), " ", Lit("i64", -5)])))], a),
+    }
+    for name, (stmts, e) in cases.items():
+        out.append(P(f"f13_{name}", "F13", Program([fn_main([("a", i32), ("b", i32)], i32, stmts, e)]), {"ledger", "value", "trace"}))
+    # strings inside records / options
+    rty = ("rec", "Named")
+    out.append(P("f13_record_with_string", "F13", Program([fn_main([("a", i32), ("b", i32)], i32, [
+        Let("r", rty, RecLit(rty, [("n", a), ("s", FStr(["n", a]))])), Let("q", rty, Var("r", rty)),
+        Assign(Field(Var("q", rty), "s", S), cat(Field(Var("q", rty), "s", S), lit("+"))),
+        ExprStmt(em(Field(Var("r", rty), "s", S))), ExprStmt(em(Field(Var("q", rty), "s", S)))], Field(Var("q", rty), "n", i32))],
+        records={"Named": [("n", i32), ("s", S)]}), {"ledger", "value", "trace"}))
+    oty = ("opt", S)
+    out.append(P("f13_option_string_match", "F13", Program([fn_main([("a", i32), ("b", i32)], i32, [
+        Let("o", oty, If(Bin(">", a, b, "bool"), Block([], Ctor(oty, "Some", [FStr(["v", a])]), oty), Block([], Ctor(oty, "None", []), oty), oty))],
+        Match(Var("o", oty), [("Some", ["x"], Bin("==", Var("x", S), lit("v3"), "bool"), one),
+                              ("Some", ["x"], None, Block([ExprStmt(em(Var("x", S)))], zero, i32)),
+                              ("None", [], None, b)], i32))]), {"ledger", "value", "trace"}))
+    return out
+
+
 def corpus(seed, tier):
-    n3 = 40 if tier == "quick" else 300
-    n7 = 20 if tier == "quick" else 150
-    progs = f1_cells() + f2_cells() + f3_random(seed, n3) + f4_cells() + f5_cells(seed, 8 if tier == "quick" else 40) + f6_cells() \
-        + f7_cells() + f10_cells() + f11_cells() + f3_random(seed + 1000, n7, depth=2, effects=True, fam="F7R") + f8_cells(seed, 20 if tier == "quick" else 120) + f9_cells()
+    quick = tier == "quick"
+    n3 = 150 if quick else 1200
+    n7 = 60 if quick else 500
+    n12 = 80 if quick else 800
+    progs = f1_cells() + f2_cells() + f3_random(seed, n3) + f4_cells() + f5_cells(seed, 8 if quick else 60) + f6_cells() \
+        + f7_cells() + f10_cells() + f11_cells() + f3_random(seed + 1000, n7, depth=2, effects=True, fam="F7R") \
+        + f8_cells(seed, 40 if quick else 400) + f9_cells() + f12_random(seed, n12, False) + f12_random(seed, n12 // 2, True) \
+        + f6_random(seed, 60 if quick else 600) + f13_cells()
+    if not quick:
+        progs += f3_random(seed + 5000, 300, depth=4, fam="F3")
     return progs
